@@ -289,12 +289,12 @@ def run_standin(sd, seed):
                              env=dict(os.environ, PYTHONPATH=os.path.join(os.environ.get('EQL_REPO', '/repo'), 'src')))
         last = out.stdout.strip().splitlines()[-1] if out.stdout.strip() else ''
         r = json.loads(last)
-        r['name'] = sd['name']
+        r['name'] = sd['name'] + (':' + sd['label'] if sd.get('label') else '')
         r['bounded'] = sd.get('bound', '')
         r['wall_s'] = round(time.time() - t0, 2)
         return r
     except Exception as e:  # noqa
-        return {'name': sd['name'], 'status': 'error', 'error': repr(e) + (out.stderr[-400:] if 'out' in dir() else ''),
+        return {'name': sd['name'] + (':' + sd['label'] if sd.get('label') else ''), 'status': 'error', 'error': repr(e) + (out.stderr[-400:] if 'out' in dir() else ''),
                 'failures': []}
 
 
